@@ -54,7 +54,7 @@ var dirOrder = []string{"user/keyboard", "user/gamepad", "factory/keyboard", "fa
 type tree struct {
 	present  map[string]bool   // "<src>/<class>/<exact|default>" -> file exists
 	exactID  input.InputID     // identifier written into the "exact" files
-	junk     string            // none | broken | invalid | txt | nested | upperbroken | all
+	junk     string            // none | broken | invalid | txt | nested | upperbroken | empty | all
 	dirState map[string]string // dir -> present | missing | file | dangling
 }
 
@@ -123,6 +123,12 @@ func (t *tree) build(root string) error {
 			os.MkdirAll(filepath.Join(p, "old", "deeper"), 0o755)
 			os.WriteFile(filepath.Join(p, "old", "broken.toml"), []byte("= = ="), 0o644)
 			os.WriteFile(filepath.Join(p, "old", "deeper", "readme.md"), []byte("hi"), 0o644)
+		}
+		if j == "empty" || j == "all" {
+			// what an editor leaves behind between truncating and writing, or a user's `touch draft.toml`
+			os.WriteFile(filepath.Join(p, "draft.toml"), nil, 0o644)
+			os.WriteFile(filepath.Join(p, "zzz_blank.toml"), []byte("  \n\n\t\n"), 0o644)
+			os.WriteFile(filepath.Join(p, "000_comment_only.toml"), []byte("# nothing yet\n"), 0o644)
 		}
 		if j == "upperbroken" || j == "all" {
 			os.WriteFile(filepath.Join(p, "BROKEN.TOML"), []byte("[[[["), 0o644)
@@ -303,7 +309,7 @@ func main() {
 	}
 	junks := []string{"none", "all"}
 	if *tier == "thorough" {
-		junks = []string{"none", "broken", "invalid", "txt", "nested", "upperbroken", "all"}
+		junks = []string{"none", "broken", "invalid", "txt", "nested", "upperbroken", "empty", "all"}
 	}
 	// (1) all 2^8 presence combinations x identifier match x junk
 	for mask := 0; mask < 256; mask++ {
